@@ -190,6 +190,7 @@ Section Push.
   Lemma record_delete_other st u n : n <> fst u -> rproj (record_delete st u) n = rproj st n.
   Proof.
     intros H. destruct u as [m [b a]]. cbn [fst] in H. unfold record_delete, rproj.
+    destruct (is_tag m); [reflexivity|].
     destruct (a =? 0); [|reflexivity]. unfold delete_git_ref.
     destruct (gget (c_backing st) m =? 0).
     - cbn [c_view c_backing set_git_ref j_remote j_grefs]. rewrite get_set_other by congruence.
@@ -203,6 +204,7 @@ Section Push.
   Proof.
     intros H. destruct u as [m [b a]]. cbn [fst] in H. unfold record_update, rproj.
     assert (E : m =? n = false) by now apply N.eqb_neq, not_eq_sym.
+    destruct (is_tag m); [reflexivity|].
     destruct (a =? 0); [reflexivity|].
     unfold update_git_ref, create_git_ref, move_git_ref.
     destruct (b =? 0).
@@ -231,12 +233,14 @@ Section Push.
   (** push_refs never touches a local bookmark. *)
   Lemma record_delete_local st u : j_local (c_view (record_delete st u)) = j_local (c_view st).
   Proof.
-    destruct u as [m [b a]]. unfold record_delete. destruct (a =? 0); [|reflexivity].
+    destruct u as [m [b a]]. unfold record_delete. destruct (is_tag m); [reflexivity|].
+    destruct (a =? 0); [|reflexivity].
     destruct (delete_git_ref (c_backing st) m b) as [[r|] b']; reflexivity.
   Qed.
   Lemma record_update_local st u : j_local (c_view (record_update st u)) = j_local (c_view st).
   Proof.
-    destruct u as [m [b a]]. unfold record_update. destruct (a =? 0); [reflexivity|].
+    destruct u as [m [b a]]. unfold record_update. destruct (is_tag m); [reflexivity|].
+    destruct (a =? 0); [reflexivity|].
     destruct (update_git_ref (c_backing st) m b a) as [[r|] b']; reflexivity.
   Qed.
   Lemma record_bm_local un v u : j_local (record_remote_bookmark un v u) = j_local v.
@@ -490,6 +494,7 @@ Section Recorded.
     /\ c_backing (record_delete st u) = c_backing st.
   Proof.
     destruct u as [m [b a]]. intros Hin [I1 I2]. unfold record_delete.
+    destruct (is_tag m); [split; [split|]; auto|].
     destruct (a =? 0) eqn:A; [|split; [split|]; auto].
     apply N.eqb_eq in A. subst a. unfold delete_git_ref.
     rewrite (I2 m b 0 Hin). cbn [N.eqb]. split; [split|]; auto.
@@ -500,6 +505,7 @@ Section Recorded.
     /\ c_backing (record_update st u) = c_backing st.
   Proof.
     destruct u as [m [b a]]. cbn [fst snd]. intros Hin Hab [I1 I2]. unfold record_update.
+    destruct (is_tag m); [split; [split|]; auto|].
     destruct (a =? 0) eqn:A; [split; [split|]; auto|].
     unfold update_git_ref, create_git_ref, move_git_ref. rewrite (I2 m b a Hin).
     rewrite A, N.eqb_refl.
@@ -553,15 +559,15 @@ Section Recorded.
     - now apply IH.
   Qed.
 
-  Lemma grefs_after_update l : forall e n b a,
+  Lemma grefs_after_update l : forall e n b a, is_tag n = false ->
     NoDup (map fst l) -> In (n, (b, a)) l -> a <> 0 -> a <> b -> gget (c_backing e) n = a ->
     gproj (fold_left record_update l e) n = resolved a.
   Proof.
-    induction l as [|u l IH]; intros e n b a Hnd Hin Ha Hab; [contradiction|].
+    induction l as [|u l IH]; intros e n b a Ht Hnd Hin Ha Hab; [contradiction|].
     cbn [map] in Hnd. inversion Hnd as [|? ? Hn Hl]; subst. intros Hba. cbn [fold_left].
     destruct Hin as [->|Hin].
     - assert (G : gproj (record_update e (n, (b, a))) n = resolved a).
-      { unfold record_update, gproj.
+      { unfold record_update, gproj. rewrite Ht.
         assert (A : a =? 0 = false) by now apply N.eqb_neq. rewrite A.
         unfold update_git_ref, create_git_ref, move_git_ref. rewrite Hba, A, N.eqb_refl.
         assert (E : a =? b = false) by now apply N.eqb_neq.
@@ -575,6 +581,27 @@ Section Recorded.
       pose proof (record_update_other e u n Hk) as R. unfold rproj in R. congruence.
   Qed.
 
+  (** For tags git_refs is not involved at all. *)
+  Lemma grefs_tag_untouched n : is_tag n = true -> forall l e,
+    gproj (fold_left record_update l (fold_left record_delete l e)) n = gproj e n.
+  Proof.
+    intros Ht.
+    assert (D : forall e u, gproj (record_delete e u) n = gproj e n).
+    { intros e [m [b a]]. destruct (N.eq_dec n m) as [<-|Hk].
+      - unfold record_delete. now rewrite Ht.
+      - now apply record_delete_gother. }
+    assert (U : forall e u, gproj (record_update e u) n = gproj e n).
+    { intros e [m [b a]]. destruct (N.eq_dec n m) as [<-|Hk].
+      - unfold record_update. now rewrite Ht.
+      - now apply record_update_gother. }
+    intros l e.
+    transitivity (gproj (fold_left record_delete l e) n).
+    - apply (fold_invariant (fun w => gproj w n = gproj (fold_left record_delete l e) n));
+        [intros w u Hw; now rewrite U|reflexivity].
+    - apply (fold_invariant (fun w => gproj w n = gproj e n));
+        [intros w u Hw; now rewrite D|reflexivity].
+  Qed.
+
   Lemma grefs_update_skips_deletion l : forall e n b,
     NoDup (map fst l) -> In (n, (b, 0)) l ->
     gproj (fold_left record_update l e) n = gproj e n.
@@ -583,20 +610,20 @@ Section Recorded.
     cbn [map] in Hnd. inversion Hnd as [|? ? Hn Hl]; subst. cbn [fold_left].
     destruct Hin as [->|Hin].
     - rewrite (fold_untouched fst record_update gproj record_update_gother l _ n Hn).
-      unfold record_update. reflexivity.
+      unfold record_update. destruct (is_tag n); reflexivity.
     - rewrite (IH _ n b Hl Hin). apply record_update_gother.
       intros C. apply Hn. rewrite <- C. now apply (in_map fst) in Hin.
   Qed.
 
-  Lemma grefs_after_delete l : forall e n b,
+  Lemma grefs_after_delete l : forall e n b, is_tag n = false ->
     NoDup (map fst l) -> In (n, (b, 0)) l -> gget (c_backing e) n = 0 ->
     gproj (fold_left record_delete l e) n = absent.
   Proof.
-    induction l as [|u l IH]; intros e n b Hnd Hin Hb0; [contradiction|].
+    induction l as [|u l IH]; intros e n b Ht Hnd Hin Hb0; [contradiction|].
     cbn [map] in Hnd. inversion Hnd as [|? ? Hn Hl]; subst. cbn [fold_left].
     destruct Hin as [->|Hin].
     - assert (G : gproj (record_delete e (n, (b, 0))) n = absent).
-      { unfold record_delete, gproj, delete_git_ref. cbn [N.eqb]. rewrite Hb0. cbn [N.eqb].
+      { unfold record_delete, gproj, delete_git_ref. rewrite Ht. cbn [N.eqb]. rewrite Hb0. cbn [N.eqb].
         cbn [c_view set_git_ref j_grefs]. now rewrite get_set_same. }
       rewrite <- G.
       apply (fold_untouched fst record_delete gproj record_delete_gother). exact Hn.
@@ -612,7 +639,8 @@ Section Recorded.
     /\ (In n (q_pushed q) ->
         resolved (gget (q_remote q) n) = get (j_local v) n
         /\ tracked_target (rget (j_remote (q_view q)) n) = resolved (gget (q_remote q) n)
-        /\ get (j_grefs (q_view q)) n = resolved (gget (q_remote q) n)
+        /\ get (j_grefs (q_view q)) n =
+           (if is_tag n then get (j_grefs v) n else resolved (gget (q_remote q) n))
         /\ gget (q_backing q) n = gget (q_remote q) n).
   Proof.
     intros Hnd. unfold push. cbn [q_view q_remote q_backing q_pushed q_unexported].
@@ -680,13 +708,15 @@ Section Recorded.
         intros e [m [b' a']] He. unfold record_remote_bookmark.
         destruct (mem N.eqb m (map fst (c_unexported r2))); [assumption|]. now rewrite set_remote_grefs. }
       rewrite G3. destruct I1 as [_ BK1].
+      destruct (is_tag n) eqn:Ht.
+      { change (gproj r2 n = gproj r0 n). unfold r2, r1. now apply grefs_tag_untouched. }
       destruct (a =? 0) eqn:A.
       + apply N.eqb_eq in A. rewrite A in *.
         change (gproj r2 n = resolved 0). unfold r2.
         rewrite (grefs_update_skips_deletion pushed r1 n b PN Hin). unfold r1.
-        apply (grefs_after_delete pushed r0 n b PN Hin). cbn [r0 c_backing]. exact (B1 n b 0 Hin).
+        apply (grefs_after_delete pushed r0 n b Ht PN Hin). cbn [r0 c_backing]. exact (B1 n b 0 Hin).
       + apply N.eqb_neq in A. change (gproj r2 n = resolved a). unfold r2.
-        apply (grefs_after_update pushed r1 n b a PN Hin A Hab). rewrite BK1. exact (B1 n b a Hin).
+        apply (grefs_after_update pushed r1 n b a Ht PN Hin A Hab). rewrite BK1. exact (B1 n b a Hin).
   Qed.
 End Recorded.
 
@@ -712,7 +742,8 @@ Definition PushOk (ns : list N) (pre post : psnap) (pushed rejected : list N) (n
         /\ gget (s_backing post) n = gget (s_backing pre) n /\ c' = c)
   /\ (In n pushed ->
         tracked_target rr' = l /\ resolved c' = l
-        /\ get (s_grefs post) n = l /\ gget (s_backing post) n = c')
+        /\ get (s_grefs post) n = (if is_tag n then get (s_grefs pre) n else l)
+        /\ gget (s_backing post) n = c')
   /\ (rr' = rr \/ tracked_target rr' = resolved c')
   /\ (In n rejected -> ~ In n pushed /\ In n ns).
 
@@ -722,6 +753,7 @@ Proof.
   unfold push_name_ok, PushOk. cbv zeta.
   destruct (mem N.eqb n pushed) eqn:M; [apply mem_spec in M|apply mem_false in M];
     destruct (mem N.eqb n rejected) eqn:R; [apply mem_spec in R|apply mem_false in R| apply mem_spec in R|apply mem_false in R];
+    destruct (is_tag n);
     cbn [negb andb]; rewrite ?Bool.andb_true_r;
     rewrite ?Bool.andb_true_iff, ?Bool.orb_true_iff, ?Bool.andb_true_iff, ?teqb_spec,
       ?rref_eqb_spec, ?N.eqb_eq, ?mem_spec;
